@@ -55,8 +55,11 @@ func (its *Manager) GetLatestDatatype() (iface.Datatype, uint64, errors.OrdaErro
 		if err = datatype.SetMetaAndSnapshot([]byte(snapshotDoc.Meta), snapshotDoc.Snapshot); err != nil {
 			return nil, 0, err
 		}
-		datatype.ResetWired()
 	}
+	// The datatype already exists on the server: this replica did not create it, so the SnapshotOperation of
+	// its own (empty) creation must be dropped and its seq restarted, whether or not a snapshot is stored yet.
+	// Otherwise PatchDocument would push that empty snapshot into the middle of the operation log.
+	datatype.ResetWired()
 	opList, sseqList, err := its.managers.Mongo.GetOperations(its.ctx, its.datatypeDoc.DUID, lastSseq+1, constants.InfinitySseq)
 	if err != nil {
 		return nil, 0, err
